@@ -63,6 +63,7 @@ class Parser:
         self._context.clear()
         self._code_gen.clear()
         self._error_output = ''
+        self._current_token = Token(TokenTypes.UNKNOWN)
         self._load_runtime()
         self._tokens = Lex(input_string).tokens()
         self.next_token()
